@@ -11,27 +11,34 @@ ASSUMPTIONS = [
     "expanded nodes closed under parent (shown inductive: every successful set_hashes ends in this family); all held values genuine and non-empty",
     "genuine leaves are arbitrary non-empty ids (not necessarily distinct, may coincide with empty-leaf constants)",
 ]
-T = {"quick": 100, "thorough": 1500}
+T = {"quick": 180, "thorough": 2400}
 NS_Q = [1, 2, 3, 4]
+STATES4 = [[], [0], [0, 1], [0, 2], [0, 1, 2]]   # expanded internal nodes of a 4-wide tree, closed under parent
 OBLIGATIONS = [
-    chx("build_padding", "C35_h", "h_build", bounds={"quick": {"n_max": 4, "ltier": 1}, "thorough": {"n_max": 8, "ltier": 1}}, timeout=T,
+    chx("build_padding", "C35_h", "h_build", bounds={"quick": {"n_max": 4, "ltier": 1}, "thorough": {"n_max": 8, "ltier": 0}}, timeout=T,
         desc="HashTree.__init__ == Merkle definition (leaves, empty_leaf_hash padding to a power of two, node i = pair(2i+1, 2i+2)); "
              "IncompleteHashTree has the same shape and starts empty; HashTree.needed_hashes == sibling chain"),
     chx("set_hashes_sound", "C35_h", "h_sound",
-        bounds={"quick": {"vtier": 1, "ltier": 0}, "thorough": {"vtier": 2, "ltier": 1}},
-        cases={"quick": [{"n": n, "_label": "n%d" % n} for n in NS_Q],
-               "thorough": [{"n": n, "_label": "n%d" % n} for n in (1, 2, 3, 4)] +
-                           [{"n": n, "focus": f, "_label": "n%d_leaf%d" % (n, f)} for n in (5, 6, 7, 8) for f in range(n)]},
+        bounds={"quick": {"vtier": 1, "ltier": 0}, "thorough": {"vtier": 1, "ltier": 0}},
+        cases={"quick": [{"n": n, "_label": "n%d" % n} for n in (1, 2)] +
+                        [{"n": n, "focus": f, "_label": "n%d_leaf%d" % (n, f)} for (n, f) in ((3, 0), (3, 2), (4, 0), (4, 3))],
+               "thorough": [{"n": n, "_label": "n%d" % n} for n in (1, 2)] +
+                           [{"n": n, "focus": f, "_label": "n%d_leaf%d" % (n, f)} for (n, f) in ((3, 0), (3, 1), (3, 2), (4, 0), (4, 1), (4, 2), (4, 3))] +
+                           [{"n": n, "xs": xs, "_label": "n%d_all_x%s" % (n, "".join(map(str, xs)))} for n in (3, 4) for xs in STATES4] +
+                           [{"n": n, "vtier": 2, "ltier": 1, "_label": "n%d_deepvalues" % n} for n in (1, 2)] +
+                           [{"n": n, "focus": f, "onpath": True, "_label": "n%d_leaf%d" % (n, f)} for n in (5, 6, 7, 8) for f in range(n)]},
         timeout=T,
         desc="IncompleteHashTree.set_hashes from any reachable pre-state, ANY subset of hash numbers supplied with symbolic values "
              "(n>4: any subset of the nodes on/adjacent to one leaf's path) plus an optional leaves={leaf: value}: "
              "accepted => every stored node equals the genuine tree, supplied hashes remembered, accepted leaf == genuine leaf; "
-             "rejected => BadHashError/NotEnoughHashesError and state identical to before",
+             "rejected => BadHashError/NotEnoughHashesError and state identical to before "
+             "(thorough: n=3,4 every subset of the 7 nodes, one case per pre-state; n=5..8: subsets of the 7 nodes on/adjacent to one leaf's path, pre-states expanded along that path)",
         outside="hash numbers outside the tree (see badnum_unchanged); more than one entry in leaves="),
     chx("needed_accept_any_order", "C35_h", "h_complete",
-        bounds={"quick": {"ltier": 0}, "thorough": {"ltier": 1}},
+        bounds={"quick": {"ltier": 0}, "thorough": {"ltier": 0}},
         cases={"quick": [{"n": n, "_label": "n%d" % n} for n in NS_Q],
-               "thorough": [{"n": n, "_label": "n%d" % n} for n in range(1, 9)]},
+               "thorough": [{"n": n, "_label": "n%d" % n} for n in (1, 2, 3, 4)] + [{"n": 2, "ltier": 1, "_label": "n2_deepleaves"}] +
+                           [{"n": n, "focus": f, "onpath": True, "_label": "n%d_first%d" % (n, f)} for n in (5, 6, 7, 8) for f in range(n)]},
         timeout=T,
         desc="needed_hashes(leaf[, include_leaf]) == sibling chain (+leaf) minus held nodes; feeding exactly those with genuine values is "
              "accepted for leaf a then leaf b (any a, b: any validation order), via hashes= or leaves=; afterwards nothing more is asked"),
